@@ -119,6 +119,33 @@ pub fn programs(thorough: bool) -> Vec<Program> {
             }
             // TTL-only update of an offloaded value: the deferred rewrite borrows the old extent
             let (kv, uv) = if two_block { (V2, VU2) } else { (V1, VU1) };
+            // a chain of TTL-only rewrites racing the flush that makes the first of them durable
+            if !cache {
+                v.push(Program {
+                    name: format!("ttl-chain:nocache{}:update_ttl;update_ttl;flush|flush", if two_block { "-2blk" } else { "-1blk" }),
+                    cfg: small(false, true, if two_block { 8 } else { 5 }),
+                    tables: t.clone(),
+                    setup: vec![ins(K, kv), Op::Flush],
+                    threads: vec![vec![Op::UpdateTtl { k: K, secs: 1000 }, Op::UpdateTtl { k: K, secs: 2000 }, Op::Flush], vec![Op::Flush]],
+                    observe: vec![K],
+                });
+                v.push(Program {
+                    name: format!("ttl-chain:nocache{}:update_ttl;flush;flush|update_ttl", if two_block { "-2blk" } else { "-1blk" }),
+                    cfg: small(false, true, if two_block { 8 } else { 5 }),
+                    tables: t.clone(),
+                    setup: vec![ins(K, kv), Op::Flush],
+                    threads: vec![vec![Op::UpdateTtl { k: K, secs: 1000 }, Op::Flush, Op::Flush], vec![Op::UpdateTtl { k: K, secs: 2000 }]],
+                    observe: vec![K],
+                });
+                v.push(Program {
+                    name: format!("ttl-chain:nocache{}:update_ttl;tick;persist;flush|get", if two_block { "-2blk" } else { "-1blk" }),
+                    cfg: small(false, true, if two_block { 8 } else { 5 }),
+                    tables: t.clone(),
+                    setup: vec![ins(K, kv), Op::Flush],
+                    threads: vec![vec![Op::UpdateTtl { k: K, secs: 1000 }, Op::Tick, Op::Persist(K), Op::Flush], vec![Op::Get(K)]],
+                    observe: vec![K],
+                });
+            }
             for (rn, r) in [("get", Op::Get(K)), ("range", Op::Range { lo: 0, hi: 1, limit: 10 })] {
                 v.push(Program {
                     name: format!("ttl-rewrite:{}{}:{rn}|flush;reuse;flush", if cache { "cache" } else { "nocache" }, if two_block { "-2blk" } else { "-1blk" }),
